@@ -67,6 +67,9 @@ unsafe impl<T: Send + 'static> EventRef<T> for PooledRef<T> {
     // past the threshold at which it is itself inlined into the caller, which costs more than
     // the call saved here. Measured with the Callgrind lifecycle benchmarks.
     unsafe fn release_event(&self) {
+        #[cfg(folo_verif)]
+        crate::__verif::notify_release(std::ptr::from_ref::<UnsafeCell<Event<T>>>(self));
+
         #[cfg(debug_assertions)]
         self.core
             .state
